@@ -8,13 +8,16 @@
 
    addr   = peer address (ca), interned as Z by the harness
    id     = nat, the n-th Incomer object the server created (creation order)
-   socket = Open | Shut (shutdown() called, fd not closed) | Closed (shutdown + close, .cs = None)
+   socket = Open | Dead (reset by the peer: shutdown() raises) | Shut (shutdown() succeeded, fd not
+            closed) | Closed (close() called, .cs = None)
    .ixes / .cxes are odicts: association lists in first-insertion order; assigning an existing
    key keeps its position.                                                              *)
 From Coq Require Import List ZArith Bool Arith.
 Import ListNotations.
 
-Inductive sock := Open | Shut | Closed.
+(* Open = live; Dead = the far side reset the connection: shutdown() on it raises ENOTCONN (swallowed by
+   Incomer.shutdown) and changes nothing; Shut = shutdown() succeeded; Closed = close() called *)
+Inductive sock := Open | Dead | Shut | Closed.
 
 Definition alist := list (Z * nat).
 
@@ -48,24 +51,33 @@ Record srv := {
   hfails : nat;               (* ghost: number of TLS handshakes that failed (do_handshake raised SSLError/OSError) *)
   wedged : nat;               (* ghost: service calls that died on a dead pending entry (AttributeError:
                                  .cs is None) *)
-  hraised : nat               (* ghost: service calls out of which a handshake error propagated *)
+  hraised : nat;              (* ghost: service calls out of which a handshake error propagated *)
+  released : list nat         (* ghost: incomers on which the server called shutclose(): closeIx, closeAllIx,
+                                 removeIx(shutclose=True), failed handshake *)
 }.
 
 Definition init : srv :=
-  {| next := 0; sk := fun _ => Closed; ixes := []; cxes := []; detached := []; errors := 0; hfails := 0; wedged := 0; hraised := 0 |}.
+  {| next := 0; sk := fun _ => Closed; ixes := []; cxes := []; detached := []; errors := 0; hfails := 0; wedged := 0; hraised := 0; released := [] |}.
 
 Definition upd (f : nat -> sock) (i : nat) (g : sock -> sock) : nat -> sock :=
   fun j => if Nat.eqb j i then g (f j) else f j.
 
-(* Incomer.shutdown(): if self.cs: self.cs.shutdown(how) *)
+(* Incomer.shutdown(): if self.cs: try: self.cs.shutdown(how) except socket.error: pass *)
 Definition shut1 (s : sock) : sock := match s with Open => Shut | x => x end.
-(* Incomer.shutclose(): if self.cs: shutdown; close; cs = None *)
+(* the far side resets the connection *)
+Definition kill (s : sock) : sock := match s with Open => Dead | x => x end.
+(* Incomer.shutclose(): if self.cs: self.shutdown() [never raises]; self.cs.close(); cs = None --
+   close() is called whatever shutdown() did *)
 Definition close1 (s : sock) : sock := Closed.
 
 Definition with_sk (s : srv) (f : nat -> sock) : srv :=
-  {| next := next s; sk := f; ixes := ixes s; cxes := cxes s; detached := detached s; errors := errors s; hfails := hfails s; wedged := wedged s; hraised := hraised s |}.
+  {| next := next s; sk := f; ixes := ixes s; cxes := cxes s; detached := detached s; errors := errors s; hfails := hfails s; wedged := wedged s; hraised := hraised s; released := released s |}.
 Definition err (s : srv) : srv :=
-  {| next := next s; sk := sk s; ixes := ixes s; cxes := cxes s; detached := detached s; errors := S (errors s); hfails := hfails s; wedged := wedged s; hraised := hraised s |}.
+  {| next := next s; sk := sk s; ixes := ixes s; cxes := cxes s; detached := detached s; errors := S (errors s); hfails := hfails s; wedged := wedged s; hraised := hraised s; released := released s |}.
+
+Definition with_released (s : srv) (f : nat -> sock) (l : list nat) : srv :=
+  {| next := next s; sk := f; ixes := ixes s; cxes := cxes s; detached := detached s; errors := errors s;
+     hfails := hfails s; wedged := wedged s; hraised := hraised s; released := l ++ released s |}.
 
 Definition shut_opt (o : option nat) (f : nat -> sock) : nat -> sock :=
   match o with Some i => upd f i shut1 | None => f end.
@@ -77,14 +89,14 @@ Definition accept_plain (s : srv) (ca : Z) : srv :=
   let n := next s in
   {| next := S n;
      sk := upd (shut_opt (lookup ca (ixes s)) (sk s)) n (fun _ => Open);
-     ixes := aset ca n (ixes s); cxes := cxes s; detached := detached s; errors := errors s; hfails := hfails s; wedged := wedged s; hraised := hraised s |}.
+     ixes := aset ca n (ixes s); cxes := cxes s; detached := detached s; errors := errors s; hfails := hfails s; wedged := wedged s; hraised := hraised s; released := released s |}.
 
 (* ServerTls.serviceAxes, one accepted (cs, ca): same on .cxes *)
 Definition accept_tls (s : srv) (ca : Z) : srv :=
   let n := next s in
   {| next := S n;
      sk := upd (shut_opt (lookup ca (cxes s)) (sk s)) n (fun _ => Open);
-     ixes := ixes s; cxes := aset ca n (cxes s); detached := detached s; errors := errors s; hfails := hfails s; wedged := wedged s; hraised := hraised s |}.
+     ixes := ixes s; cxes := aset ca n (cxes s); detached := detached s; errors := errors s; hfails := hfails s; wedged := wedged s; hraised := hraised s; released := released s |}.
 
 (* ServerTls.serviceCxes, one (ca, cx) of the snapshot whose handshake completed:
      if ca in self.ixes and self.ixes[ca] is not cx: self.shutdownIx(ca)
@@ -95,7 +107,7 @@ Definition promote (s : srv) (ca : Z) (cx : nat) : srv :=
                      | Some old => if Nat.eqb old cx then None else Some old
                      | None => None end) (sk s);
      ixes := aset ca cx (ixes s); cxes := aremove ca (cxes s);
-     detached := detached s; errors := errors s; hfails := hfails s; wedged := wedged s; hraised := hraised s |}.
+     detached := detached s; errors := errors s; hfails := hfails s; wedged := wedged s; hraised := hraised s; released := released s |}.
 
 (* outcome of one do_handshake() call *)
 Inductive hres := HDone | HWant | HFail.
@@ -114,11 +126,11 @@ Definition handshake_failed (drop propagate : bool) (s : srv) (ca : Z) (cx : nat
   {| next := next s; sk := upd (sk s) cx close1; ixes := ixes s;
      cxes := if drop then aremove ca (cxes s) else cxes s;
      detached := detached s; errors := errors s; hfails := S (hfails s); wedged := wedged s;
-     hraised := if propagate then S (hraised s) else hraised s |}.
+     hraised := if propagate then S (hraised s) else hraised s; released := cx :: released s |}.
 
 Definition wedge (s : srv) : srv :=
   {| next := next s; sk := sk s; ixes := ixes s; cxes := cxes s; detached := detached s;
-     errors := errors s; hfails := hfails s; wedged := S (wedged s); hraised := hraised s |}.
+     errors := errors s; hfails := hfails s; wedged := S (wedged s); hraised := hraised s; released := released s |}.
 
 (* the loop over the snapshot self.cxes.items(); hs = outcome of each do_handshake() call in call
    order (exhausted = want more).  A pending entry whose socket is already closed (.cs is None)
@@ -150,7 +162,8 @@ Inductive op :=
 | ShutdownIx (ca : Z)
 | CloseIx (ca : Z)
 | CloseAllIx
-| RemoveIx (ca : Z) (shutclose : bool).
+| RemoveIx (ca : Z) (shutclose : bool)
+| PeerReset (ca : Z).          (* environment: the peer of the ready connection ca resets it *)
 
 Definition step (tls : bool) (cleans : mode) (s : srv) (o : op) : srv :=
   match o with
@@ -165,9 +178,14 @@ Definition step (tls : bool) (cleans : mode) (s : srv) (o : op) : srv :=
   | CloseIx ca =>
       match lookup ca (ixes s) with
       | None => err s
-      | Some i => with_sk s (upd (sk s) i close1)
+      | Some i => with_released s (upd (sk s) i close1) [i]
       end
-  | CloseAllIx => with_sk s (fold_left (fun f p => upd f (snd p) close1) (ixes s) (sk s))
+  | CloseAllIx => with_released s (fold_left (fun f p => upd f (snd p) close1) (ixes s) (sk s)) (map snd (ixes s))
+  | PeerReset ca =>
+      match lookup ca (ixes s) with
+      | None => s
+      | Some i => with_sk s (upd (sk s) i kill)
+      end
   | RemoveIx ca shutclose =>
       match lookup ca (ixes s) with
       | None => err s
@@ -176,7 +194,8 @@ Definition step (tls : bool) (cleans : mode) (s : srv) (o : op) : srv :=
              sk := if shutclose then upd (sk s) i close1 else sk s;
              ixes := aremove ca (ixes s); cxes := cxes s;
              detached := if shutclose then detached s else i :: detached s;
-             errors := errors s; hfails := hfails s; wedged := wedged s; hraised := hraised s |}
+             errors := errors s; hfails := hfails s; wedged := wedged s; hraised := hraised s;
+             released := if shutclose then i :: released s else released s |}
       end
   end.
 
@@ -209,3 +228,7 @@ Definition sock_states (s : srv) : list sock := map (sk s) (seq 0 (next s)).
 
 (* the table has an entry for peer address ca *)
 Definition has_entry (ca : Z) (l : alist) : Prop := lookup ca l <> None.
+
+(* every incomer the server has shutclosed (closeIx, closeAllIx, removeIx(shutclose=True), failed TLS
+   handshake) has a CLOSED socket -- whatever its shutdown() did *)
+Definition released_closed (s : srv) : Prop := forall i, In i (released s) -> sk s i = Closed.
